@@ -302,6 +302,28 @@ pub fn run_case(bins: &Binaries, case: &Case, reference: &[(String, Vec<u8>)], i
     Ok(XResult { violations: v, stdout, connections: standins.len(), grace_used, order, verdict, expected: all_proven, slow })
 }
 
+/// Replay file of a violation seen by the E2 engine.
+#[derive(Clone, serde::Serialize, serde::Deserialize)]
+pub struct XReplay {
+    pub property: String,
+    pub engine: String,
+    pub seed: u64,
+    pub cross_case: u64,
+    pub slow_case: bool,
+    pub case: Case,
+    pub violation: Violation,
+    pub note: String,
+}
+
+/// Re-run an E2 case from its replay file; returns the violations seen now.
+pub fn replay(r: &XReplay) -> Result<Vec<Violation>, String> {
+    let bins = Binaries::locate();
+    let mut scratch = Scratch::new("xreplay");
+    let prep = exec::prepare(&r.case, &mut scratch);
+    let x = run_case(&bins, &r.case, &prep.reference, &prep.in_dir, &mut scratch, mix2(r.seed, 1_000_000_000 + r.cross_case), r.slow_case)?;
+    Ok(x.violations)
+}
+
 #[derive(Default, serde::Serialize)]
 pub struct XSummary {
     pub runs: u64,
@@ -323,13 +345,13 @@ fn sorted_lines(b: &[u8]) -> Vec<String> {
 }
 
 /// Run `n` cross-check cases; returns (summary, violations with a description of the case, harness disagreements).
-pub fn campaign(seed: u64, n: u64, thorough: bool, workers: usize, e2_only: bool) -> (XSummary, Vec<(u64, Violation)>, Vec<String>) {
+pub fn campaign(seed: u64, n: u64, thorough: bool, workers: usize, e2_only: bool) -> (XSummary, Vec<XReplay>, Vec<String>) {
     use std::sync::atomic::{AtomicU64, Ordering};
     use std::sync::{Arc, Mutex};
     let bins = Arc::new(Binaries::locate());
     let tasks = Arc::new(crate::c10::tasks());
     let next = Arc::new(AtomicU64::new(0));
-    let acc: Arc<Mutex<(XSummary, Vec<(u64, Violation)>, Vec<String>)>> = Arc::new(Mutex::new((XSummary::default(), vec![], vec![])));
+    let acc: Arc<Mutex<(XSummary, Vec<XReplay>, Vec<String>)>> = Arc::new(Mutex::new((XSummary::default(), vec![], vec![])));
     let mut hs = vec![];
     for w in 0..workers {
         let (bins, tasks, next, acc) = (bins.clone(), tasks.clone(), next.clone(), acc.clone());
@@ -381,7 +403,7 @@ pub fn campaign(seed: u64, n: u64, thorough: bool, workers: usize, e2_only: bool
                     a.0.connections += x.connections as u64;
                     *a.0.by_instances.entry(case.instances.to_string()).or_insert(0) += 1;
                     for v in &x.violations {
-                        a.1.push((j, v.clone()));
+                        a.1.push(XReplay { property: "C10".into(), engine: "E2".into(), seed, cross_case: j, slow_case, case: case.clone(), violation: v.clone(), note: "shipped binary, real threads and pipes, stand-in prover driven by the coordinator; the release order is drawn from the seed, the timing inside one quiescent step is the operating system's".into() });
                     }
                     continue;
                 }
@@ -410,7 +432,7 @@ pub fn campaign(seed: u64, n: u64, thorough: bool, workers: usize, e2_only: bool
                     a.0.slow_prover_runs += 1;
                 }
                 for v in &x.violations {
-                    a.1.push((j, v.clone()));
+                    a.1.push(XReplay { property: "C10".into(), engine: "E2".into(), seed, cross_case: j, slow_case, case: case.clone(), violation: v.clone(), note: "shipped binary, real threads and pipes, stand-in prover driven by the coordinator; the release order is drawn from the seed, the timing inside one quiescent step is the operating system's".into() });
                 }
                 if x.violations.is_empty() && v1.is_empty() {
                     a.0.e1_e2_verdict_compared += 1;
